@@ -425,13 +425,105 @@ def rule_ext(ctx):
     ext = name_cfg.rsplit(".", 1)[1] if name_cfg and "." in name_cfg else None
     ctx.check("C19.ext", name_cfg in tried and mext.get(ext) == dflt, where(TOOLS, "StorageTools", None), "profile config file %r" % name_cfg,
               "the profile config is written as %r in format %s, but the loader tries %s and reads .%s as format %s" % (name_cfg, dflt, sorted(tried), ext, mext.get(ext)), "written where and as the loader expects")
-    # load tries each extension in the profile directory; guess_type falls back to trial parsing
+    # load tries each extension in the profile directory; guess_type falls back to trial parsing: both decided by
+    # executing them over a scripted file system; the reading of their shape below is the fallback
     load = repo.method(MGR, "ConfigManager", "load")
+    gt = repo.method(MGR, "ConfigManager", "guess_type")
+    ex = load_scenarios(repo, cls, mext, base)
+    if ex is not None:
+        bad_load, bad_guess, n_load, n_guess = ex
+        ctx.check("C19.ext", not bad_load, where(MGR, "ConfigManager.load", load.lineno), "load by path, then by profile name over every extension",
+                  "load must try the path and then every known extension in the profile directory: " + "; ".join(bad_load[:2]), "%d scripted file systems: the path first, then <profile dir>/%s.<each extension>, else None" % (n_load, base))
+        ctx.check("C19.ext", not bad_guess, where(MGR, "ConfigManager.guess_type", gt.lineno), "format detection by extension, else by trial parse",
+                  "a file with a known extension must be read as that extension's format: " + "; ".join(bad_guess[:2]), "%d file names: the extension decides (any letter case); none: trial parse (C19.detect)" % n_guess)
+        return
     ok = any(isinstance(n, ast.For) and unparse(n.iter) == "self.MAP_EXT" for n in ast.walk(load)) and bool(calls_named(load, "getStorageForProfile")) and bool(calls_named(load, "_load_path"))
     ctx.check("C19.ext", ok, where(MGR, "ConfigManager.load", load.lineno), "load by path, then by profile name over every extension", "load must try the path and then every known extension in the profile directory", "three load paths present")
     gt = repo.method(MGR, "ConfigManager", "guess_type")
     ok = any(isinstance(n, ast.For) and "TYPES" in unparse(n.iter) for n in ast.walk(gt)) and bool(calls_named(gt, "splitext"))
     ctx.check("C19.ext", ok, where(MGR, "ConfigManager.guess_type", gt.lineno), "format detection by extension, else by trial parse", "files without a known extension must be detected by trial parsing with every format", "extension, then trial parse")
+
+
+def load_scenarios(repo, cls, mext, base):
+    """ConfigManager.load and guess_type executed over scripted file systems (os.path.isfile / join / splitext computed,
+    _load_path answering with a token naming the file it was asked to load, the profile directory fixed)
+    -> (problems of load, problems of guess_type, scenarios, file names) or None when they cannot be followed"""
+    from ..absint import Interp, _Raise, NeedAtom, Budget, DomainGrew, C_NONE
+    import posixpath
+    if not base or not mext:
+        return None
+    PDIR = "/store/alice"
+    exts = [x for x in mext if x]
+
+    def make(existing, guess=False):
+        def extcall(itp, label, args, kwargs, env, depth, e):
+            leaf = label.strip(".()").split(".")[-1]
+            cs = [a for a in args if a[0] == "c" and isinstance(a[1], str)]
+            if leaf == "isfile" and len(cs) == 1 == len(args):
+                return ("c", cs[0][1] in existing)
+            if leaf == "join" and len(cs) == len(args) and args and e is not None and "path" in unparse(e.func):
+                return ("c", posixpath.join(*[a[1] for a in cs]))
+            if leaf == "splitext" and len(cs) == 1 == len(args):
+                return ("c", tuple(posixpath.splitext(cs[0][1])))
+            return None
+
+        def load_path(itp, fn, owner, self_val, a, k):
+            p_ = a[0] if a else None
+            if p_ is None or p_[0] != "c":
+                raise _Raise(("ext", "Unfollowed", []), "path not constant")
+            return ("ext", "CONFIG:" + p_[1], []) if p_[1] in existing else C_NONE
+
+        def storage(itp, fn, owner, self_val, a, k):
+            return ("c", PDIR)
+        hooks = {"extcall": extcall, "fn:getStorageForProfile": storage, "builtin:open": lambda *a_: ("ext", "file", [])}
+        if not guess:
+            hooks["fn:_load_path"] = load_path
+        it = Interp(repo, {}, {}, hooks=hooks)
+        o = it.construct(cls, [], {}, {"@module": cls.module, "@owner": None}, 0, None)
+        return it, o
+
+    def call(existing, name, args, kwargs=None, guess=False):
+        it, o = make(existing, guess)
+        try:
+            v = it.method_call(o, name, [("c", a) for a in args], {k_: ("c", v_) for k_, v_ in (kwargs or {}).items()}, {"@module": cls.module, "@owner": cls}, 0, None)
+        except _Raise as r:
+            return ("raise", r.text)
+        v = it.force(v)
+        if v[0] == "ext" and v[1].startswith("CONFIG:"):
+            return ("config", v[1][7:])
+        if v[0] == "c":
+            return ("value", v[1])
+        return ("other", v)
+    bad_load, bad_guess = [], []
+    try:
+        scen = []
+        prof = lambda ext: posixpath.join(PDIR, base + "." + ext)
+        scen.append(("a path to a file", {"/tmp/my.json"}, ["/tmp/my.json"], {}, ("config", "/tmp/my.json")))
+        for ext in exts:
+            scen.append(("profile holding %s.%s" % (base, ext), {prof(ext)}, ["alice"], {}, ("config", prof(ext))))
+            scen.append(("profile holding %s.%s, profile only" % (base, ext), {prof(ext)}, ["alice"], {"profile_only": True}, ("config", prof(ext))))
+        scen.append(("neither a file nor a profile with a config", set(), ["alice"], {}, ("value", None)))
+        scen.append(("a file named like the profile, profile only", {"alice", prof(exts[0])}, ["alice"], {"profile_only": True}, ("config", prof(exts[0]))))
+        scen.append(("a file named like the profile", {"alice", prof(exts[0])}, ["alice"], {}, ("config", "alice")))
+        for label, existing, args, kw, want in scen:
+            got = call(existing, "load", args, kw)
+            if got[0] == "other" or (got[0] == "raise" and "Unfollowed" in got[1]):
+                return None
+            if got != want:
+                bad_load.append("%s: load(%s) gives %s, not %s" % (label, ", ".join(map(repr, args + list(kw.items()))), got, want))
+        names = []
+        for ext, t in mext.items():
+            if ext:
+                names += [("/d/%s.%s" % (base, ext), t), ("/d/x.%s" % ext.upper(), t), ("/d/a.b.%s" % ext, t)]
+        for path, want in names:
+            got = call({path}, "guess_type", [path], guess=True)
+            if got[0] == "other":
+                return None
+            if got != ("value", want):
+                bad_guess.append("guess_type(%r) gives %s, the extension means %r" % (path, got, want))
+    except (NeedAtom, Budget, DomainGrew):
+        return None
+    return bad_load, bad_guess, len(scen), len(names)
 
 
 def rule_detect(ctx):
@@ -567,7 +659,11 @@ def fs_trace_profile_write(ctx):
     st = repo.cls(TOOLS, "StorageTools")
     wpd = repo.method(TOOLS, "StorageTools", "writeProfileData")
     w = where(TOOLS, "StorageTools.writeProfileData", wpd.lineno)
-    PROFILE, NAME, VAL, STORAGE = ("ext", "PROFILE", []), ("ext", "NAME", []), ("ext", "VAL", []), ("ext", "STORAGE", [])
+    # paths are concrete (the profile's directory and the file name are fixed strings, os.path functions are computed):
+    # whatever way the code puts a path together, what reaches the file system is compared as a string
+    import posixpath
+    PROFILE, NAME, VAL, STORAGE = ("c", "alice"), ("c", "config.json"), ("ext", "VAL", []), ("c", "/store/alice")
+    TARGET = ("c", posixpath.join(STORAGE[1], NAME[1]))
 
     def mentions(t, x):
         if t == x:
@@ -586,6 +682,8 @@ def fs_trace_profile_write(ctx):
 
     def dir_of(t):
         """the directory a path term lies in, as a term (or None)"""
+        if isinstance(t, tuple) and t[0] == "c" and isinstance(t[1], str):
+            return ("c", posixpath.dirname(t[1]))
         a = libcall(t, "join")
         if a and len(a) >= 2:
             return a[0] if len(a) == 2 else ("ext", ".join()", a[:-1])
@@ -594,6 +692,8 @@ def fs_trace_profile_write(ctx):
         return None
 
     def same_dir(d, path):
+        if isinstance(d, tuple) and d[0] == "c" and isinstance(d[1], str) and path[0] == "c" and isinstance(path[1], str):
+            return posixpath.normpath(d[1]) == posixpath.normpath(posixpath.dirname(path[1]))
         a = libcall(d, "dirname")
         if a:
             return a[0] == path or dir_of(a[0]) == dir_of(path) and dir_of(path) is not None
@@ -613,9 +713,15 @@ def fs_trace_profile_write(ctx):
                 return STORAGE
 
             def extcall(itp, label, args, kwargs, env, depth, e):
-                if label.strip(".()").split(".")[-1] in ("exists", "isdir"):
+                leaf = label.strip(".()").split(".")[-1]
+                if leaf in ("exists", "isdir"):
                     itp.emit("CALL", "exists", list(args), None)
                     return ("c", exists_flag)
+                strs = [a for a in args if a[0] == "c" and isinstance(a[1], str)]
+                if leaf in ("join", "dirname", "basename", "normpath", "abspath", "split", "splitext") and strs and len(strs) == len(args) and not kwargs \
+                        and e is not None and "path" in unparse(e.func):
+                    r_ = getattr(posixpath, leaf)(*[a[1] for a in strs])
+                    return ("c", r_)
                 return None
             it = Interp(repo, cell, domains, hooks={"builtin:open": open_, "fn:getStorageForProfile": storage, "extcall": extcall})
             raised = None
@@ -663,7 +769,7 @@ def fs_trace_profile_write(ctx):
                 if e2[0] == "call" and e2[2] and e2[2][0] == target and e2[1].split(".")[-1] in ("replace", "rename", "remove", "unlink", "move", "truncate"):
                     bad_atomic.add("the profile file itself is %s (%s) before the new one is in place: if the process dies right after that, the profile has no configuration file at all - neither the previous nor the new one loads" % (
                         "moved away" if e2[1].split(".")[-1] in ("replace", "rename", "move") else "removed", e2[1]))
-            if not (mentions(target, STORAGE) and mentions(target, NAME)):
+            if target != TARGET:
                 bad_atomic.add("the file that is replaced (%s) is not `name` inside the profile's storage directory" % show(target)[:60])
             for oi, ev in writes:
                 path, f = ev[2][0], ev[3]
